@@ -24,7 +24,7 @@ E = enums.E
 META = {
     "technique": "hand model of the sensor stage over the c2lean-generated kernels (regenerated every run) + Lean 4 proofs over the reals (unfolding, case split, ring; list induction for the slice layout) + bitwise translation validation of the kernels + bitwise differential of the model against the unmodified static functions of engine_sensor.c on crafted mjModel/mjData views + property oracle on generated models (independent recomputation of every attached sensor from mjData primitives and Jacobian-API reference motions; poison values for unwritten entries)",
     "text": "Proved over the reals for all inputs about the model (tied bitwise to apply_cutoff / mj_computeSensor of the tree): apply_cutoff never changes the number of entries; for a positive cutoff and a non-exempt type every REAL entry becomes the clamp of the entry to [-c, c] (in range, identity on in-range entries, idempotent) and every POSITIVE entry becomes min(c, x) (<= c, identity below c); AXIS and QUATERNION data, the exempt types CONTACT and GEOMFROMTO, and every sensor with cutoff <= 0 are left untouched.  For every list of sensor dimensions the slices [adr_i, adr_i + dim_i) produced by the running-sum layout are pairwise disjoint, ordered, contained in [0, nsensordata) and every index below nsensordata lies in exactly one slice (they tile sensordata); nsensordata is the sum of the dimensions.  Frame sensors: FRAMEPOS with a reference frame equals R_ref^T (p - p_ref) and (for orthogonal R_ref) p = p_ref + R_ref * reading; FRAMEXAXIS/Y/Z with a reference equals R_ref^T times the object's axis, i.e. column k of R_ref^T R; FRAMEQUAT with a reference is conj(q_ref) * q, so q_ref * reading = q for a unit reference and its rotation matrix is R(q_ref)^T R(q); without a reference the readings are the global position / axis / quaternion; FRAMELINVEL / FRAMEANGVEL with a reference equal R_ref^T (v - v_ref - w_ref x (p - p_ref)) and R_ref^T (w - w_ref), and the linear one is the time derivative of the FRAMEPOS reading whenever dR_ref/dt = [w_ref]x R_ref (stated algebraically); mj_objectVelocity (site frame: velocimeter, gyro) is R^T (v_c + w x (p - c)), R^T w of the com-based spatial velocity; mj_objectAcceleration (accelerometer, framelinacc) adds the w x v term to the transported spatial acceleration; force / torque sensors are R^T f and R^T (tau - (p - c) x f) of cfrc_int; objects welded to a dof-less body read zero velocity and acceleration.",
-    "note": "Stated over the reals (the differential is bitwise on doubles; the oracle uses tolerance 1e-9 x scale).  `_partial`: only the cutoff, layout, FRAME*, velocimeter, gyro, accelerometer, force and torque computations are modelled and proved; every other attached type (joint/tendon/actuator pos/vel/frc, limit pos/vel/frc, ball quat/angvel, touch, subtree com/linvel/angmom, magnetometer, clock, kinetic/potential energy, insidesite, user sensors with every datatype) is decided by the oracle only, as are the values of cacc / cfrc_int themselves (mj_rnePostConstraint is not modelled: the accelerometer oracle compares with J qacc + Jdot qvel - g through the Jacobian API, force/torque with cfrc_int).  Not attached / not checked: rangefinder, camprojection, geomdist/normal/fromto, contact, tactile, plugin sensors, sensor history (delay / interval).  get_xpos_xmat / get_xquat array selection is part of the model and of the differential.  The enumerator numerals never appear in Lean: op lines carry names (read by the model) and the header values (read by the C side), both derived from the tree's headers by this module.",
+    "note": "Stated over the reals (the differential is bitwise on doubles; the oracle uses tolerance 1e-9 x scale).  `_partial`: only the cutoff, layout, FRAME*, velocimeter, gyro, accelerometer, force and torque computations are modelled and proved; every other attached type (joint/tendon/actuator pos/vel/frc, limit pos/vel/frc, ball quat/angvel, touch, subtree com/linvel/angmom, magnetometer, clock, kinetic/potential energy, insidesite, user sensors with every datatype) is decided by the oracle only, as are the values of cacc / cfrc_int themselves (mj_rnePostConstraint is not modelled: the accelerometer oracle compares with J qacc + Jdot qvel - g through the Jacobian API, force/torque with cfrc_int).  TWO GENUINE DEFECTS of the tree are reported by the oracle under stable keys: (1) c28:E_KINETIC:value -- mjSENS_E_KINETIC is a POSITION-stage sensor guarded by d->flg_energyvel, but that flag is only cleared by mj_fwdVelocity, which runs AFTER mj_sensorPos; with mjENBL_ENERGY set the flag is still 1 from the previous evaluation, so the sensor returns the kinetic energy of the PREVIOUS mj_forward / mj_step (one-step lag; after qvel is changed from 0 it reads 0) and repeating mj_forward on the same state changes the reading; (2) c28:accelerometer:static-body-reads-zero -- mj_objectAcceleration returns zero for every object welded to a dof-less body (world, static, mocap), so an accelerometer mounted there reads (0,0,0) although the documentation says it measures the linear acceleration of the site *including gravity* (a resting accelerometer reads -g; the model-side counterpart is theorem static_body_zero_motion).  FRAMELINACC documents no gravity term at all, so both 0 and -g are accepted for it on such bodies.  Every 9th oracle model is a directed touch scene (contact point outside the zone, normal ray through it) so that the re-projection rule of the touch sensor is exercised in both body orders.  Every built-in sensor is also recomputed through the public mj_computeSensor into a canary-guarded buffer (a sensor of dimension d must write exactly d entries).  Not attached / not checked: rangefinder, camprojection, geomdist/normal/fromto, contact, tactile, plugin sensors, sensor history (delay / interval).  get_xpos_xmat / get_xquat array selection is part of the model and of the differential.  The enumerator numerals never appear in Lean: op lines carry names (read by the model) and the header values (read by the C side), both derived from the tree's headers by this module.",
 }
 
 P = "MjProof.C28."
